@@ -187,8 +187,7 @@ def _catches_oserror_and_stays(p, f, g, node):
     return False
 
 
-def rule_r3(ctx):
-    rid = "C13.R3"
+def rule_r3(ctx, rid="C13.R3"):
     ctx.r.rule(rid, "in the listener's handle_accept every statement that touches the accepted socket is inside the try whose OSError handler keeps the listener open")
     p = ctx.p
     cg = get_callgraph(p)
@@ -328,8 +327,7 @@ def rule_r4(ctx):
             ctx.r.violation(rid, key_of(f, None, "swallows-unknown-errors"), "%s does not re-raise socket errors outside the tables" % q, f.loc())
 
 
-def rule_r5(ctx):
-    rid = "C13.R5"
+def rule_r5(ctx, rid="C13.R5"):
     ctx.r.rule(rid, "an OSError re-raised by dispatcher.send/recv always ends in a handler that closes (or marks for closing) the channel")
     p = ctx.p
     n = 0
@@ -358,6 +356,22 @@ def rule_r5(ctx):
                         if isinstance(x, ast.Assign) and any(isinstance(tg, ast.Attribute) and tg.attr in ("will_close", "close_on_finish") for tg in x.targets) \
                                 and isinstance(x.value, ast.Constant) and x.value.value is True:
                             closes = True
+                    if closes:
+                        # ... on every path through the handler that swallows the error (a mark set only under a
+                        # logging option leaves the dead connection polled forever)
+                        gh = cfg_of(t.func)
+                        marks = [x for x in gh.nodes if x.ast is not None and x.kind == "stmt" and any(y is x.ast for y in ast.walk(h)) and (
+                            (isinstance(x.ast, ast.Assign) and any(isinstance(tg, ast.Attribute) and tg.attr in ("will_close", "close_on_finish") for tg in x.ast.targets)
+                             and isinstance(x.ast.value, ast.Constant) and x.ast.value.value is True)
+                            or any(isinstance(y, ast.Call) and isinstance(y.func, ast.Attribute) and y.func.attr in ("handle_close", "handle_error", "close") for y in ast.walk(x.ast)))]
+                        hn = [x for x in gh.nodes if x.kind == "handler" and x.ast is h]
+                        pth = gh.path(hn[0], gh.exit, avoid=marks, follow_exc=False) if hn else None
+                        if pth is not None:
+                            closes = False
+                            ctx.r.violation(rid, "oserror-mark-conditional::%s::%s" % (t.func.qual, norm(h.type) if h.type else "bare"),
+                                            "a socket error from %s is swallowed by %s on a path that does not mark the channel for closing (%s): the failed connection stays in the polled set"
+                                            % (q.split(".")[-1], t.func.qual, gh.describe_path(pth)), t.func.loc(h), {"chain": t.chain})
+                            continue
                     if closes:
                         ctx.r.ok(rid, "socket error from %s: %s, which closes" % (q.split(".")[-1], t.describe()), t.func.loc(h))
                     else:
@@ -431,6 +445,21 @@ def rule_r6(ctx, rid="C13.R6"):
             ctx.r.ok(rid, "map removal guarded by membership", f3.loc(n.ast))
         else:
             ctx.r.violation(rid, key_of(f3, None, "unguarded-del"), "del_channel removes the descriptor without a membership test", f3.loc(n.ast))
+    # unregistering twice is harmless (handle_close can run twice in one handle_write: once for the failed send, once
+    # for the promoted close_when_flushed)
+    dc = p.func("channel.HTTPChannel.del_channel")
+    gd = cfg_of(dc)
+    dels = [x for x in gd.nodes if x.kind == "stmt" and isinstance(x.ast, ast.Delete) and any(isinstance(t, ast.Subscript) for t in x.ast.targets)]
+    for x in dels:
+        t = [t for t in x.ast.targets if isinstance(t, ast.Subscript)][0]
+        from .common import resolve_locals
+        cont, key = norm(t.value), norm(t.slice)
+        conts = {cont, norm(resolve_locals(dc, t.value))}
+        if any((cmp_fact(tt, pol) or ("",))[0] == "in" and cmp_fact(tt, pol)[1] == key and cmp_fact(tt, pol)[3] is True
+               and (cmp_fact(tt, pol)[2] in conts or norm(resolve_locals(dc, tt.comparators[0])) in conts) for (tt, pol) in guards_of(gd, x)):
+            ctx.r.ok(rid, "del_channel removes the bookkeeping entry only if it is there (idempotent)", dc.loc(x.ast))
+        else:
+            ctx.r.violation(rid, key_of(dc, None, "unregister-not-idempotent"), "del_channel deletes %s[%s] without testing membership: a second teardown of the same channel raises KeyError out of the I/O loop" % (cont, key), dc.loc(x.ast))
 
 
 def rule_r7(ctx):
